@@ -174,7 +174,7 @@ Proof.
     - pose proof (NE_cpy_sputc (r_cpy r) (r_dev r) c x (p_ok _ _ _ _ _ HP) (post_adev _ _ _ _ HP)) as H.
       destruct (cpy_sputc _ _ _ _) as [[y d] c1]. exact H.
     - pose proof (NE_dev_sputc (r_dev r) c x (post_adev _ _ _ _ HP)) as H. destruct (dev_sputc _ _ _). exact H. }
-  pose proof (step_post f0 true body r c (OPut [x]) HP I) as HS. cbv zeta in HS. cbn [step put_all obytes] in HS.
+  pose proof (step_post f0 true body r c (OPut [x]) HP) as HS. cbv zeta in HS. cbn [step put_all obytes] in HS.
   rewrite (resp_out_done r c (p_out _ _ _ _ _ HP)) in HS.
   destruct (resp_putc r c x) as [r1 c1]. cbn [fst snd] in *.
   eapply NE_trans; [exact H1|]. eapply IH. exact HS.
@@ -201,11 +201,11 @@ Proof.
     pose proof (NE_async_write_response (r_dev r) c Hd) as H. destruct (async_write_response _ _). exact H.
 Qed.
 
-Lemma NE_run_ops f0 : forall ops body r c, Post f0 true body r c -> ops_safe r c ops -> NE P1 P1 c (snd (run_ops r c ops)).
+Lemma NE_run_ops f0 : forall ops body r c, Post f0 true body r c -> NE P1 P1 c (snd (run_ops r c ops)).
 Proof.
-  induction ops as [|o t IH]; intros body r c HP Hs; cbn [run_ops]; [apply NE_refl|].
-  destruct Hs as [H1 H2]. pose proof (NE_step f0 body r c o HP) as HN.
-  pose proof (step_post f0 true body r c o HP H1) as HS. cbv zeta in HS.
+  induction ops as [|o t IH]; intros body r c HP; cbn [run_ops]; [apply NE_refl|].
+  pose proof (NE_step f0 body r c o HP) as HN.
+  pose proof (step_post f0 true body r c o HP) as HS. cbv zeta in HS.
   destruct (step r c o) as [r1 c1]. cbn [fst snd] in *.
   eapply NE_trans; [exact HN|]. eapply IH; eassumption.
 Qed.
@@ -257,11 +257,11 @@ Proof.
 Qed.
 
 Lemma whole_noerr : forall ops r c,
-  PreI true r -> k_err c = false -> k_trace c = [] -> sent c = [] -> ops_safe r c ops ->
+  PreI true r -> k_err c = false -> k_trace c = [] -> sent c = [] ->
   no_declared_length c (hdrs_at_out (r_hdrs r) ops) ->
   k_err (snd (whole r c ops)) = false.
 Proof.
-  induction ops as [|o t IH]; intros r c HPre He Ht Hs Hsafe Hn.
+  induction ops as [|o t IH]; intros r c HPre He Ht Hs Hn.
   - cbn [hdrs_at_out] in Hn. unfold whole. cbn [run_ops]. rewrite finish_out.
     pose proof (out_post true r c HPre He Ht Hs) as HP. cbv zeta in HP.
     pose proof (NE_finish _ _ _ _ HP) as HN.
@@ -272,28 +272,24 @@ Proof.
     + pose proof (out_post true r c HPre He Ht Hs) as HP. cbv zeta in HP.
       unfold whole. cbn [run_ops]. rewrite (step_out r c o EO).
       set (r1 := fst (resp_out r c)) in *. set (c1 := snd (resp_out r c)) in *.
-      assert (Hsafe1 : ops_safe r1 c1 (o :: t)).
-      { cbn [ops_safe] in *. destruct Hsafe as [_ H2]. rewrite (step_out r c o EO) in H2. fold r1 c1 in H2.
-        split; [destruct o; try discriminate; exact I|exact H2]. }
       assert (E0 : k_err c1 = false /\ P1 (k_fmt c1)).
       { unfold c1, resp_out. rewrite (q_out _ _ HPre). cbn [snd with_fmt k_err k_fmt]. split; [exact He|now apply P1_out]. }
       destruct E0 as [E0 Q0].
-      pose proof (NE_run_ops _ (o :: t) [] r1 c1 HP Hsafe1) as HN1.
-      pose proof (run_ops_post _ true (o :: t) [] r1 c1 HP Hsafe1) as HR. cbv zeta in HR. cbn [run_ops] in HR, HN1.
+      pose proof (NE_run_ops _ (o :: t) [] r1 c1 HP) as HN1.
+      pose proof (run_ops_post _ true (o :: t) [] r1 c1 HP) as HR. cbv zeta in HR. cbn [run_ops] in HR, HN1.
       destruct (step r1 c1 o) as [r2 c2]. destruct (run_ops r2 c2 t) as [r3 c3]. cbn [fst snd] in *.
       destruct (HN1 E0 Q0) as [E3 Q3].
       pose proof (NE_finish _ _ _ _ HR) as HN2. now destruct (HN2 E3 Q3).
     + destruct (pre_step true r c o HPre EO) as (r' & Es & HPre' & Hh & Hv & Hdef).
       unfold whole. cbn [run_ops]. rewrite Es.
-      cbn [ops_safe] in Hsafe. destruct Hsafe as [_ H2]. rewrite Es in H2.
-      apply (IH r' c HPre' He Ht Hs H2). now rewrite Hh.
+      apply (IH r' c HPre' He Ht Hs). now rewrite Hh.
 Qed.
 
 Lemma async_noerr base defbuf version c ops :
-  fresh c -> script_safe true base defbuf version c ops -> no_declared_length c (hdrs_at_out base ops) ->
+  fresh c -> no_declared_length c (hdrs_at_out base ops) ->
   k_err (fst (run_request true base defbuf version c ops)) = false.
 Proof.
-  intros (He & Ht & Hw & Hp) Hsafe Hn. rewrite run_request_whole. cbn [fst].
+  intros (He & Ht & Hw & Hp) Hn. rewrite run_request_whole. cbn [fst].
   apply whole_noerr; auto.
   - apply pre_new.
   - unfold sent, wire_bytes. now rewrite Hw, Hp.
@@ -301,28 +297,27 @@ Qed.
 
 (* unconditional end-to-end statements for asynchronous responses: every schedule, no error hypothesis *)
 Lemma async_scgi_unconditional base defbuf version c ops :
-  fresh c -> f_proto (k_fmt c) = Scgi -> script_safe true base defbuf version c ops ->
+  fresh c -> f_proto (k_fmt c) = Scgi ->
   wire_bytes (fst (run_request true base defbuf version c ops)) = format_cgi_headers (hdrs_at_out base ops) ++ script_body ops.
 Proof.
-  intros Hf Hp Hs. apply scgi_exact; auto. apply async_noerr; auto. intros E. congruence.
+  intros Hf Hp. apply scgi_exact; auto. apply async_noerr; auto. intros E. congruence.
 Qed.
 Lemma async_fcgi_unconditional base defbuf version c ops rest :
-  fresh c -> f_proto (k_fmt c) = Fcgi -> script_safe true base defbuf version c ops ->
+  fresh c -> f_proto (k_fmt c) = Fcgi ->
   exists fuel0, forall fuel, (fuel0 <= fuel)%nat ->
   unrecord fuel (f_reqid (k_fmt c)) (wire_bytes (fst (run_request true base defbuf version c ops)) ++ rest) =
   Some (format_cgi_headers (hdrs_at_out base ops) ++ script_body ops, rest).
 Proof.
-  intros Hf Hp Hs. apply fcgi_exact; auto. apply async_noerr; auto. intros E. congruence.
+  intros Hf Hp. apply fcgi_exact; auto. apply async_noerr; auto. intros E. congruence.
 Qed.
 Lemma async_http_unconditional base defbuf version c ops :
   fresh c -> f_proto (k_fmt c) = Http -> hmap_get (h_map (hdrs_at_out base ops)) CONTENT_LENGTH = [] ->
-  script_safe true base defbuf version c ops ->
   http_wire (format_http_headers (hdrs_at_out base ops) version) (f_server (k_fmt c)) (script_body ops)
             (wire_bytes (fst (run_request true base defbuf version c ops))) /\
   k_pending (fst (run_request true base defbuf version c ops)) = [].
 Proof.
-  intros Hf Hp Hcl Hs.
+  intros Hf Hp Hcl.
   assert (Hok : k_err (fst (run_request true base defbuf version c ops)) = false) by (apply async_noerr; auto; intros _; exact Hcl).
   split; [apply http_exact; auto|].
-  destruct (response_exact_lemma true base defbuf version c ops Hf Hs Hok) as (_ & P & _). exact P.
+  destruct (response_exact_lemma true base defbuf version c ops Hf Hok) as (_ & P & _). exact P.
 Qed.
